@@ -224,9 +224,8 @@ CutExpect(part) ==
     [] part = "body_len"   -> <<"h_body_read", "NetworkError">>                         \* stream.py:306
     [] part = "body_close" -> None                                                      \* EOF is the end of the body
     [] part \in {"chunk_hdr", "chunk_data", "chunk_nl", "last_chunk"} -> <<"h_chunk_hdr_readline", "NetworkError">>
-    [] part = "trailer"    -> None                   \* chunked.py:117-122: EOF inside the trailer ends the message (DESIGN 7)
-    [] part = "trailer_name" -> IF Fixed("trailer_lenient") THEN None
-                                ELSE <<"h_trailer_parse", "ValueError">>   \* ... unless what arrived is a field name without its colon
+    \* chunked.py read_trailer: end of stream before the line that ends the message (was: taken for that line)
+    [] part \in {"trailer", "trailer_name"} -> <<"h_trailer_readline", "NetworkError">>
     [] part \in {"r_status", "r_header", "r_blank"} -> <<"r_hdr_readline", "NetworkError">>
     [] part = "r_body_len" -> <<"r_body_read", "NetworkError">>
 
